@@ -42,6 +42,8 @@ type X struct {
 	defers       []func()
 	maxPoints    int
 	truncated    bool
+	diverged     bool
+	strict       bool
 	Verbose      bool
 }
 
@@ -54,7 +56,13 @@ func (x *X) choose(n int, dev bool, label string) int {
 	if i < len(x.prefix) {
 		c = x.prefix[i]
 		if c >= n {
-			HarnessError("replay diverged at point %d (%s): recorded choice %d but only %d alternatives now; notes: %v", i, label, c, n, x.notes)
+			if x.strict {
+				HarnessError("replay diverged at point %d (%s): recorded choice %d but only %d alternatives now; notes: %v", i, label, c, n, x.notes)
+			}
+			// Some nondeterminism the harness does not own (a timing fluke) made this prefix unrepeatable: the
+			// subtree cannot be explored soundly. Count it, never report from it.
+			x.diverged = true
+			panic(stopExec{})
 		}
 	}
 	if i >= x.maxPoints {
@@ -188,6 +196,7 @@ type DFSResult struct {
 	Inconclusive        int            `json:"inconclusive"`
 	Unstable            int            `json:"unstable"`
 	Truncated           int            `json:"truncated"`
+	Diverged            int            `json:"diverged"`
 	MaxPoints           int            `json:"max_points"`
 	Exhaustive          bool           `json:"exhaustive"`
 	Violations          []Violation    `json:"violations"`
@@ -202,6 +211,7 @@ func (r *DFSResult) merge(o DFSResult) {
 	r.Inconclusive += o.Inconclusive
 	r.Unstable += o.Unstable
 	r.Truncated += o.Truncated
+	r.Diverged += o.Diverged
 	if o.MaxPoints > r.MaxPoints {
 		r.MaxPoints = o.MaxPoints
 	}
@@ -316,7 +326,7 @@ func (e *explorer) account(x *X) {
 		stable := true
 		for i := 0; i < e.cfg.Confirm; i++ {
 			y := e.run(x.choices(), false)
-			if y.fail == nil || y.fail.Sig != x.fail.Sig {
+			if y.diverged || y.fail == nil || y.fail.Sig != x.fail.Sig {
 				stable = false
 				break
 			}
@@ -350,6 +360,11 @@ func (e *explorer) explore(prefix []int, depth int, owned bool) {
 		return
 	}
 	x := e.run(prefix, false)
+	if x.diverged {
+		e.res.Diverged++
+		e.res.Exhaustive = false
+		return
+	}
 	if owned {
 		e.account(x)
 	}
@@ -561,6 +576,9 @@ func (d *DFS) ReplayChoices(choices []int) *Violation {
 	}
 	e := &explorer{cfg: d, res: newResult(d.Name)}
 	x := e.run(choices, true)
+	if x.diverged {
+		fmt.Println("replay diverged: the recorded choices do not fit the alternatives offered now")
+	}
 	if x.inconclusive != "" {
 		fmt.Println("inconclusive:", x.inconclusive)
 	}
@@ -598,6 +616,7 @@ func (t *DFSTotals) Fill(rep *Report, rule string, bound int) {
 	}
 	c["unstable"] = t.R.Unstable
 	c["truncated_at_horizon"] = t.R.Truncated
+	c["diverged_prefixes"] = t.R.Diverged
 	c["max_choice_points"] = t.R.MaxPoints
 	c["exhaustive"] = t.R.Exhaustive
 	c["deviation_bound_completed"] = bound
